@@ -13,7 +13,7 @@ from io import BytesIO
 sys.path.insert(0, "/repo/tests")
 
 
-def rand_config(rng, lossless=None, profile=None, small=True):
+def rand_config(rng, lossless=None, profile=None, small=True, vary_metadata=False):
     from sample_codec_features import MINIMAL_CODEC_FEATURES as CF
     from vc2_conformance.codec_features import CodecFeatures
     from vc2_data_tables import (Profiles, PictureCodingModes, WaveletFilters, ColorDifferenceSamplingFormats,
@@ -39,6 +39,23 @@ def rand_config(rng, lossless=None, profile=None, small=True):
     vp.update(frame_width=w, frame_height=h, clean_width=w, clean_height=h, left_offset=0, top_offset=0,
               color_diff_format_index=cdf, source_sampling=ss, top_field_first=rng.random() < 0.5,
               luma_offset=0, luma_excursion=(1 << dy) - 1, color_diff_offset=1 << (dc - 1), color_diff_excursion=(1 << dc) - 1)
+    if vary_metadata:
+        # everything else the sequence header carries: frame rate, pixel aspect ratio, clean area, colour primaries /
+        # matrix / transfer function (independently, so that partial matches with the colour-spec presets occur)
+        from vc2_data_tables import (PresetColorPrimaries, PresetColorMatrices, PresetTransferFunctions, PRESET_FRAME_RATES,
+                                     PRESET_PIXEL_ASPECT_RATIOS)
+
+        if rng.random() < 0.5:
+            vp["frame_rate_numer"], vp["frame_rate_denom"] = rng.choice(sorted(PRESET_FRAME_RATES.values())) if rng.random() < 0.6 else (rng.randrange(1, 200), rng.choice([1, 1001]))
+        if rng.random() < 0.4:
+            vp["pixel_aspect_ratio_numer"], vp["pixel_aspect_ratio_denom"] = rng.choice(sorted(PRESET_PIXEL_ASPECT_RATIOS.values())) if rng.random() < 0.6 else (rng.randrange(1, 50), rng.randrange(1, 50))
+        if rng.random() < 0.3:
+            vp["clean_width"], vp["clean_height"] = rng.randrange(1, w + 1), rng.randrange(1, h + 1)
+            vp["left_offset"], vp["top_offset"] = rng.randrange(0, w - vp["clean_width"] + 1), rng.randrange(0, h - vp["clean_height"] + 1)
+        if rng.random() < 0.7:
+            vp["color_primaries_index"] = rng.choice(list(PresetColorPrimaries))
+            vp["color_matrix_index"] = rng.choice(list(PresetColorMatrices))
+            vp["transfer_function_index"] = rng.choice(list(PresetTransferFunctions))
     depth = rng.choice([0, 1, 1, 2, 3])
     depth_ho = rng.choice([0, 0, 0, 1, 2])
     wi = WaveletFilters(rng.randrange(7))
@@ -133,6 +150,10 @@ def decode(data):
         return "CRASH:%s: %s" % (type(e).__name__, str(e)[:120]), out
 
 
+META_KEYS = ["frame_rate_numer", "frame_rate_denom", "pixel_aspect_ratio_numer", "pixel_aspect_ratio_denom", "clean_width", "clean_height",
+             "left_offset", "top_offset", "color_primaries_index", "color_matrix_index", "transfer_function_index"]
+
+
 def describe(cf):
     vp = cf["video_parameters"]
     return {"profile": int(cf["profile"]), "pcm": int(cf["picture_coding_mode"]), "lossless": bool(cf["lossless"]),
@@ -141,7 +162,8 @@ def describe(cf):
             "luma_exc": int(vp["luma_excursion"]), "cd_exc": int(vp["color_diff_excursion"]), "cd_off": int(vp["color_diff_offset"]),
             "wavelet": int(cf["wavelet_index"]), "wavelet_ho": int(cf["wavelet_index_ho"]), "depth": cf["dwt_depth"],
             "depth_ho": cf["dwt_depth_ho"], "sx": cf["slices_x"], "sy": cf["slices_y"], "frag": cf["fragment_slice_count"],
-            "picture_bytes": cf["picture_bytes"], "qm": cf["quantization_matrix"]}
+            "picture_bytes": cf["picture_bytes"], "qm": cf["quantization_matrix"],
+            "meta": dict((k, int(vp[k])) for k in META_KEYS)}
 
 
 def from_description(d):
@@ -154,6 +176,8 @@ def from_description(d):
               color_diff_format_index=ColorDifferenceSamplingFormats(d["cdf"]), source_sampling=SourceSamplingModes(d["ss"]),
               top_field_first=d["tff"], luma_offset=0, luma_excursion=d["luma_exc"], color_diff_offset=d["cd_off"],
               color_diff_excursion=d["cd_exc"])
+    for k, v in d.get("meta", {}).items():
+        vp[k] = type(vp[k])(v)
     qm = d["qm"]
     if qm is not None:
         qm = dict((int(k), v) for k, v in qm.items())
